@@ -27,6 +27,16 @@ PROPS = {
         "not_covered": ["RiBufImpl::set_scheme (URI/IRI with mandatory scheme) and from_scheme: not under contract",
                         "uri/ iri/ one-line wrappers", "validity of the result as a member of the RFC language (needs grammar lemma G1; only the structural decomposition is proved)"],
     },
+    "C10": {
+        "level": "proof",
+        "units": [{"kind": "verus", "name": "PathMutImpl push/pop/clear/symbolic_push: exact result text + frame; list-semantics and context-safety lemmas on the text level",
+                   "specs": ["00_base", "01_chars", "02_authority", "03_types", "04_path", "05_compose", "06_refcompose", "07_pathmut", "08_segs"],
+                   "isolate": [["common::path_mut", "*::push"]], "rlimit": 300}],
+        "assumptions": ["handle invariant as precondition (window inside the buffer, window text is a path); segment arguments have no '/', '?', '#'",
+                        "RiRefBufImpl::path_mut / PathBufImpl::as_path_mut construct the handle on the path of the buffer (constructor contract assumed: one-line wrappers)"],
+        "not_covered": ["symbolic_append (generic IntoIterator loop) and normalize (C09) are not under contract",
+                        "composition over a sequence of edits relies on edited() re-establishing inv() (proved) - the enclosing reference's decomposition after an edit is a spec-level theorem (lemma_path_edit_ref) not re-proved per call"],
+    },
     "C11": {
         "level": "proof",
         "units": [{"kind": "verus", "name": "AuthorityMutImpl: window invariant + splice postconditions of set_userinfo/set_host/set_port", "specs": ["00_base", "01_chars", "02_authority", "03_types", "05_compose"]}],
@@ -56,6 +66,11 @@ PROPS = {
 }
 
 MANIFEST_TEXT = {
+    "C10": {
+        "technique": "Verus contracts on the real PathMutImpl (exact result text as a spec function + frame) and proved lemmas linking those texts to the '/'-split segment sequence",
+        "level_text": "Deductive proof for all buffers and arguments: push, pop, clear and symbolic_push leave everything outside the path window byte-identical (scheme, authority, query, fragment untouched), re-establish the handle invariant (so sequences of edits compose), and produce exactly push_text / pop_text / clear_text / sym_push_text of the old path; proved lemmas state what those texts mean: the segment sequence gains exactly the pushed segment (a '.' appears only as a shield before an empty or ':'-bearing first segment and disappears only where it was one), pop removes the last segment, clear removes all, and the path stays unambiguous in its context (absolute after an authority, no leading '//' without one, no ':' in a first segment that starts the reference).",
+        "level_note": "Known finding: pop on '//x' (first segment empty, two segments) yields '/' instead of the single empty segment. Not covered: symbolic_append, normalize, wrappers in uri/ iri/. rlimit 800 (push needs ~30 s).",
+    },
     "C05": {
         "technique": "Verus functional + frame postconditions on the real setters over the abstract 5-component view (recomposition lemma proved in Verus)",
         "level_text": "Deductive proof for all buffers and all argument values: after set_scheme / set_authority / set_path / set_query / set_fragment the text is exactly the RFC 3986 5.3 recomposition of the five components with the targeted one replaced or removed and the other four byte-identical; the path differs only by the three documented disambiguations, which the postcondition spells out as the only alternatives; reading the five components back (App. B decomposition of the new text) yields exactly those values (lemma_ref_compose, proved).",
@@ -105,7 +120,6 @@ NOT_APPLICABLE = {
     "C07": "check not built yet",
     "C08": "check not built yet",
     "C09": "check not built yet",
-    "C10": "check not built yet",
     "C13": "check not built yet",
     "C14": "all routes except from_vec and the conversions are emitted by the third-party static-regular-grammar derive or macro_rules templates, generic over serde traits; no item in /repo to put a contract on, and neither Verus nor Kani model fmt/serde",
     "C15": "check not built yet",
